@@ -171,16 +171,19 @@ Qed.
 
 (* ---------- projections through record-update setters ----------
    `p (s <| fld := v |>)` is `p s` (other field) or `g (p s)` (same field); both by conversion.
-   Never use `cbn`/`simpl` on goals mentioning `htr` (it unfolds the merkleisation). *)
+   Never use `cbn`/`simpl` on goals mentioning `htr` (it unfolds the merkleisation).  `p` must be a constant
+   (a projection): a conversion test on e.g. `get_beacon_proposer_index E (set ..)` would unfold 40000 units of fuel. *)
 Ltac simpl_set :=
   repeat match goal with
   | |- context [?p (set ?fld ?g ?s)] =>
-      first [ change (p (set fld g s)) with (p s) | change (p (set fld g s)) with (g (p s)) ]
+      is_const p;
+      first [ progress change (p (set fld g s)) with (p s) | progress change (p (set fld g s)) with (g (p s)) ]
   end; cbv beta.
 Ltac simpl_set_in H :=
   repeat match type of H with
   | context [?p (set ?fld ?g ?s)] =>
-      first [ change (p (set fld g s)) with (p s) in H | change (p (set fld g s)) with (g (p s)) in H ]
+      is_const p;
+      first [ progress change (p (set fld g s)) with (p s) in H | progress change (p (set fld g s)) with (g (p s)) in H ]
   end; cbv beta in H.
 
 Lemma some_inj {A} (a b : A) : Some a = Some b -> a = b.
